@@ -141,10 +141,12 @@ class Multiline:
     so that a refused header line is not partially merged.
     """
     for of in gfa_line.tagnames:
+      # (every value is read here: a value which cannot be parsed is found
+      # before any tag is merged)
+      value = gfa_line.get(of)
       prev = self.get(of)
       if prev is None:
         continue
-      value = gfa_line.get(of)
       datatype = gfa_line.get_datatype(of)
       if isinstance(prev, gfapy.FieldArray):
         prev_datatype = prev.datatype
